@@ -66,8 +66,11 @@ func RepoDir() string {
 }
 
 // Load parses, type-checks and builds SSA for every package of the repository.
-func Load() (*Prog, error) {
-	dir := RepoDir()
+func Load() (*Prog, error) { return LoadDir(RepoDir()) }
+
+// LoadDir is Load for an explicit directory (used by the sensitivity run on scratch
+// copies of the repository).
+func LoadDir(dir string) (*Prog, error) {
 	fset := token.NewFileSet()
 	env := append(os.Environ(),
 		"GOFLAGS=-mod=mod", "GOPROXY=off", "GOSUMDB=off", "GOTOOLCHAIN=local", "GOWORK=off")
